@@ -226,7 +226,7 @@ def _one_snapshot_in(ctx: Ctx, case: Dict[str, Any], suite: str, world):
 
                         def call():
                             return Snapshot(ROOT).read_object(key, memory_budget_bytes=budget)
-                    with sim.knobs(nobatch=nobatch, budget=case["knobs"].get("budget")):
+                    with sim.knobs(nobatch=nobatch, budget=case["knobs"].get("budget"), conc=case["knobs"].get("conc")):
                         outcome, detail = classify(lambda: world.run1(call), expect_value)
                     exp_raise = _expected_raise(reqs, loc, kind, n, sizes)
                     inp = {"state": case["state"], "knobs": case["knobs"], "real_fs": bool(case.get("real_fs")), "object": loc,
@@ -301,7 +301,10 @@ def _gen_case(rng) -> Dict[str, Any]:
             leaf = {"t": "list", "items": [gen.rand_tensor_desc(rng, 8), gen.rand_leaf_desc(rng, 0.3, 8)]}
         items.append([gen.key_desc(k), leaf])
     kn = {"chunk": rng.choice([None, 1, 8, 16, 64]), "slab": rng.choice([None, None, 1, 16, 64]),
-          "nobatch": rng.choice([False, False, True]), "budget": rng.choice([10 ** 9, 50, 1])}
+          "nobatch": rng.choice([False, False, True]), "budget": rng.choice([10 ** 9, 50, 1]),
+          # I/O concurrency cap: with 1 or 2 the read scheduler's throttle branch (in-flight reads at the cap) is taken
+          # with a handful of requests; the default (16) needs more requests than these small states have
+          "conc": rng.choice([None, None, 1, 2])}
     return {"state": {"t": "dict", "items": items}, "knobs": kn, "real_fs": rng.random() < 0.15}
 
 
